@@ -68,9 +68,10 @@ func (c *policyConn) Write(p []byte) (int, error) {
 		c.log = append(c.log, p...)
 		return len(p), nil
 	}
+	// A-conn: a Write that reports an error accepted fewer bytes than it was given
 	n := e.accept
-	if n > len(p) {
-		n = len(p)
+	if n > len(p)-1 {
+		n = len(p) - 1
 	}
 	c.log = append(c.log, p[:n]...)
 	switch e.out {
